@@ -187,7 +187,9 @@ func checkC06(w *core.W) {
 			continue
 		}
 		i := i
-		w.Case(func() string { return "order-triples|" + reprs[repKeys[i]].Class + " ## transitivity with a = (" + reprs[repKeys[i]].Prog + ")" }, func() {
+		w.Case(func() string {
+			return "order-triples|" + reprs[repKeys[i]].Class + " ## transitivity with a = (" + reprs[repKeys[i]].Prog + ")"
+		}, func() {
 			for j := range repKeys {
 				for k := range repKeys {
 					w.AddTransitions(1)
@@ -381,6 +383,6 @@ func errStr(err error) string {
 
 var C06 = core.Check{
 	ID: "C06", Level: "exploration", Fn: checkC06, Rounds: func(string) int { return 2 },
-	Rule: "values = every state of the representation space (numbers incl. -0 and negatives, tuples incl. sugar tuples and @neg wrappers, every set representation incl. offsets, holes, twins, nested) plus one state per (class, operator) of generation 1. All unordered pairs: exactly one of a<b, a=b (denotations), b<a at the Go API, and <, <=, >, >= at source level must be the derived relations. All triples over <=110 (quick) / 220 (thorough) representatives (one per shape class and size, plus short literals): transitivity. Every multiset of 3 values from a 26-value mixed-kind list, in all 6 insertion orders: orderby is an ascending permutation independent of insertion order, max/min are its ends, rank counts strictly smaller members, and the printed member order of the set equals it. non-trivial = distinct denotations (pairs), both premises hold (triples), not all three equal (sorting)",
+	Rule:   "values = every state of the representation space (numbers incl. -0 and negatives, tuples incl. sugar tuples and @neg wrappers, every set representation incl. offsets, holes, twins, nested) plus one state per (class, operator) of generation 1. All unordered pairs: exactly one of a<b, a=b (denotations), b<a at the Go API, and <, <=, >, >= at source level must be the derived relations. All triples over <=110 (quick) / 220 (thorough) representatives (one per shape class and size, plus short literals): transitivity. Every multiset of 3 values from a 26-value mixed-kind list, in all 6 insertion orders: orderby is an ascending permutation independent of insertion order, max/min are its ends, rank counts strictly smaller members, and the printed member order of the set equals it. non-trivial = distinct denotations (pairs), both premises hold (triples), not all three equal (sorting)",
 	Assume: []string{"the particular order is not prescribed, only its laws", "equality is equality of denotations (reference model)"},
 }
